@@ -722,9 +722,21 @@ def run(ctx: Any, prog: Program) -> None:
         ctx.check('C16.Q5', False, db, pb, '_parse_block never overwrites its slot of self.unparsed: the block is parsed again on the next lookup, replacing entities other callers already hold', func='EngineDB._parse_block', text='block slot blanked')
     else:
         ctx.shape('C16.Q5', "self.unparsed[index] = ((), b'')" in psrc, db, blank[0], 'slot overwritten with the empty marker', func='EngineDB._parse_block', text='block slot blanked')
-    blank_idx = psrc.find("self.unparsed[index] = ((), b'')")
-    ok = blank_idx >= 0 and 'self.get_ent(base)' in psrc and psrc.index('self.get_ent(base)') > blank_idx
-    ctx.check('C16.Q5', ok, db, pb, 'bases are resolved (possibly parsing other blocks) only after this block is marked parsed, so mutual references cannot recurse forever', func='EngineDB._parse_block', text='bases resolved after blanking')
+    getents = [c for c in ast.walk(pb) if isinstance(c, ast.Call) and dotted(c.func) == 'self.get_ent']
+    # the rewrite of `<ent>.bases`: every name still held as a string is turned into the definition by get_ent (which parses the owning block)
+    base_stores = [n for n in ast.walk(pb) if isinstance(n, ast.Assign) and isinstance(n.targets[0], ast.Attribute) and n.targets[0].attr == 'bases' and isinstance(n.value, (ast.ListComp, ast.List, ast.Call))]
+    ctx.shape('C16.Q5', len(base_stores) == 1 and isinstance(base_stores[0].value, ast.ListComp), db, pb, '_parse_block rewrites the bases list with one comprehension', func='EngineDB._parse_block', text='bases resolved through get_ent')
+    for bs_ in base_stores:
+        if not isinstance(bs_.value, ast.ListComp):
+            continue
+        var_ = bs_.value.generators[0].target
+        resolvers = [c for c in ast.walk(bs_.value.elt) if isinstance(c, ast.Call) and isinstance(c.func, ast.Attribute) and dotted(c.func.value) == 'self' and c.args and dotted(c.args[0]) == dotted(var_)]
+        ctx.shape('C16.Q5', bool(resolvers), db, bs_, 'a self.<method>(<base>) call resolves the string entries', func='EngineDB._parse_block', text='bases resolved through get_ent')
+        for c in resolvers:
+            ctx.check('C16.Q5', c.func.attr == 'get_ent', db, c, f'bases of a lazily parsed block are resolved with self.{c.func.attr}() instead of get_ent(): a base living in a block that is not parsed yet has to be parsed, '
+                      'not left as a name or looked up in the half-filled map', func='EngineDB._parse_block', text='bases resolved through get_ent')
+    ok = bool(blank) and bool(getents) and min(c.lineno for c in getents) > min(n.lineno for n in blank)
+    ctx.check('C16.Q5', ok or not getents, db, pb, 'bases are resolved (possibly parsing other blocks) only after this block is marked parsed, so mutual references cannot recurse forever', func='EngineDB._parse_block', text='bases resolved after blanking')
     gsrc = ast.unparse(ge)
     ok = 'if isinstance(ent_info, EntityDef):\n        return ent_info' in gsrc and 'self._parse_block(ent_info)' in gsrc and 'classname.casefold()' in gsrc
     ctx.shape('C16.Q5', ok, db, ge, 'get_ent returns the cached definition or parses exactly the block the placeholder names', func='EngineDB.get_ent', text='get_ent cache / placeholder')
